@@ -1,6 +1,18 @@
-/- C03 — memory safety of the intrusive lists (initial: Layer A guards; Layer B chain lemmas are in Lemmas/Chain) -/
+/-
+  C03 — memory safety of the intrusive lists.
+  Layer A: on every reachable list-level state no operation reads a sentinel as an entry or unwraps `None`.
+  Layer B: the pointer chain (`Model/Chain`) — `attach`, `detach`, move-to-front, the reads of `(*tail).prev`, the two
+  cursor walks — on chains of every length; and the pointer-level RawLRU (`Model/PtrLru`: heap of link cells, node
+  payloads, hash index as a function, allocator-chosen addresses): after **every history** the chain between the two
+  sentinels is well formed (distinct addresses, forward and backward links agree), the index holds exactly the chained
+  nodes under their own keys, `len` is the chain length, and every address an operation dereferences is a chained node
+  or a sentinel (`ptr_safe_history`, `ptr_derefs`). The real chain is audited through the `verif_audit` hook after every
+  operation of every trace (forward walk = reverse of backward walk, sentinels at the ends, index ↔ chain), and freed
+  memory is poisoned and quarantined by the harness allocator so that a stale read cannot go unnoticed.
+-/
 import Caches.Lemmas.RawLru
 import Caches.Lemmas.Chain
+import Caches.Lemmas.PtrRun
 namespace C03
 open M M.RawLru
 variable {κ ν : Type} [DecidableEq κ]
@@ -76,6 +88,30 @@ theorem view_erase (ent : Nat → κ × ν) (l : List Nat) (hk : (keys (l.map en
       rw [show ent a = ((ent a).1, (ent a).2) from rfl]
       simp only [M.erase, hne, if_false]
       rw [ih hk'.2 hnt]
+
+
+/-! ## pointer-level RawLRU: every history keeps the representation invariant -/
+
+/-- after any history, with any index function and any admissible allocator: chain well formed, index = chained nodes
+    under their keys, `len` = chain length ≤ capacity -/
+theorem ptr_safe_history [DecidableEq ν] (alloc : PLru κ ν → Nat) (ha : Admissible alloc) (ops : List (POp κ ν))
+    (p : PLru κ ν) (l : List Nat) (h : Rep p l) :
+    ∃ l', Rep (ops.foldl (pstep alloc) p) l' := by
+  obtain ⟨l', _, hr, _, _⟩ := ptr_refines_history alloc ha ops p l h
+  exact ⟨l', hr⟩
+
+/-- the addresses the operations dereference are chained nodes: the index only ever answers with a chained node, and
+    the node before the tail sentinel is an entry whenever `len ≠ 0` (the guard both call sites test) -/
+theorem ptr_derefs (p : PLru κ ν) (l : List Nat) (h : Rep p l) :
+    (∀ k n, p.idx k = some n → n ∈ l ∧ (p.heap n).prev ∈ p.head :: l ∧ (p.heap n).next ∈ l ++ [p.tail]) ∧
+    (p.len ≠ 0 → (p.heap p.tail).prev ∈ l) := by
+  constructor
+  · intro k n hi
+    have hn := ((h.idx k n).1 hi).1
+    exact ⟨hn, detach_derefs _ _ _ _ h.wf n hn⟩
+  · intro h0
+    have hne : l ≠ [] := by intro hc; subst hc; exact h0 (by rw [h.len]; rfl)
+    exact (chain_tail_prev _ _ _ _ h.wf).1 hne
 
 /-- non-vacuity: a concrete three-node chain is well formed, and detaching its middle node leaves the two others -/
 example : let h : Heap := fun x => match x with
